@@ -38,16 +38,20 @@ ASSUMPTIONS = [
     "re-normalises the model)",
 ]
 BOUNDS = {
-    "quick": "handles: 10 losses (Huber t in {.25,1}, NB r in {1,3.5}, beta in {.3,.5,2}) x 4-5 data values x 8 model "
-             "values incl. lower bound, lower bound+1e-6; evaluate: shapes (2,3),(3,2,2),(2,2,2,2),(1,3,2) x rank 1-2 "
-             "x 14 loss configurations x {dense,sparse} data x {unit, non-unit} Kruskal weights x {None, every 0/1 mask "
-             "with <=2 zeros, 2 generic weight arrays, bool/int masks}; mttkrps: all shapes order 2-4,size<=3,cells<=24 "
-             "x rank 1-2 x {list, ktensor unit, ktensor non-unit}; estimate: same 4 shapes (+(2,2)), all 720 sample "
-             "orders for 6 cells (4 orders otherwise), duplicates with split weights, all sub-lists of <=2 and "
-             ">=n-1 samples, crng corrections",
-    "thorough": "handles: 41-point model grids, 7-9 data values, 6 extra parameter values per parametrised loss; "
-                "evaluate: + shapes (3,3),(2,3,2),(2,1,2,2),(2,3,4) rank 1-3, masks with <=3 zeros (<=2 for 24 cells); "
-                "mttkrps: order<=5,size<=3,cells<=48 rank 1-3; estimate: all 8! orders for (2,2,2)",
+    "quick": "handles: 10 losses / 14 configurations (Huber t in {.25,1}, NB r in {1,3.5}, beta in {.3,.5,2}) x 3-6 data "
+             "values x 8 model values (incl. the lower bound 0 and 1e-6 above it) + both Huber kinks per data value; "
+             "setup: 14 configurations x {dense,sparse} x {positive data, data with zeros}; evaluate: shapes (2,3),"
+             "(3,2,2),(2,2,2,2),(1,3,2) x rank 1-2 x 14 configurations x {dense,sparse} data x {unit, non-unit} Kruskal "
+             "weights; weight arrays: None + every 0/1 mask with <=2 zeros + 2 generic weight arrays + bool/int/C-order "
+             "forms for dense data & unit weights (4 representatives otherwise); every factor coordinate "
+             "differentiated; 1-way (3,) objective only; mttkrps/helper: all shapes order 2-4,size<=3,cells<=24 x rank "
+             "1-2 x {list, ktensor unit, ktensor weighted} resp. 6 sample lists; estimate: (2,2),(2,3),(3,2,2),(2,2,2,2),"
+             "(1,3,2) x rank 1-2 x 14 configurations: all n! sample orders for n<=6 cells (4 orders otherwise), "
+             "n+3 duplicated lists with split weights, all sub-lists of 1,2,n-1 samples, 2 weighted lists, 3 crng forms",
+    "thorough": "handles: 25 configurations (6 parameter values each), 42 model values for bounded / 41 for unbounded "
+                "losses, 3-10 data values; evaluate: + shapes (3,3),(2,3,2),(2,1,2,2),(2,3,4), rank 1-3 (rank 3 with 4 "
+                "weight arrays), masks with <=3 zeros up to 16 cells; mttkrps/helper: order 2-5,size<=3,cells<=48, rank "
+                "1-3; estimate: + the shapes above and all 8! orders of (2,2,2) for Gaussian/Poisson/Bernoulli-logit",
 }
 CHUNK = 2
 
@@ -421,6 +425,12 @@ def _holder(shape, vals, holder):
     return H.make_sptensor(shape, subs, v)
 
 
+# Zeros belong to the documented data domain of the "non-negative" / count losses (Rayleigh, Gamma, negative
+# binomial, beta): setup() must accept them for dense data as it does for sparse data.  Set to False to demote this
+# to an observation (counter setup_rejects_zero_data) if the validation is judged outside C12.
+ASSERT_ZERO_DATA = True
+
+
 def _run_setup(case, ctx):
     name, p, holder, seed = case["loss"], case["param"], case["holder"], case.get("seed", 0)
     ddom, mdom = LOSS_DOM[name]
@@ -441,6 +451,10 @@ def _run_setup(case, ctx):
             ctx.tick()
             hs = get_handles(name, p, _holder(shape, vals, holder))
         except Exception as e:  # noqa: BLE001
+            if pname == "with_zero" and not ASSERT_ZERO_DATA and ddom in ("nonneg", "count"):
+                ctx.inadm()
+                ctx.count(f"setup_rejects_zero_data:{name}:{holder}")
+                continue
             ctx.fail("fg_setup.setup", exc_symptom(e), short_tb(e) + f" data={vals}", variant=holder, case=sub)
             continue
         ctx.count(f"setup_accepts:{pname}:{holder}")
